@@ -18,6 +18,9 @@ P = lambda i: ("param", i)
 V = lambda n: ("var", n)
 
 
+ALSO_PORTABLE = True
+
+
 def run(ctx, chk):
     prog = ctx.prog()
     K = prog.K
@@ -57,6 +60,8 @@ def run(ctx, chk):
     ]
     n = 0
     for name, mac, cmpf in vrows:
+        if prog.fn(name) is None and chk.relaxed:
+            continue        # backend not compiled in this configuration
         fn = prog.need(name, rule="R4.2")
         checks = [(mac, None, {0: V("tag"), 1: P(1), 3: P(3)}), (cmpf, "Z", {0: P(0), 1: V("tag")})]
         for p, conj in cm.exits_returning(prog, fn, "Z"):
